@@ -255,6 +255,9 @@ def shard(args):
         for t in CR_TEXTS:
             for spec in C.cuts(t, max_runs=2):
                 check_value(acc, spec, thorough)
+    for si, spec in enumerate(C.exotic_specs()):
+        if si % nshards == idx:
+            check_value(acc, spec, thorough)
     return acc.export()
 
 
